@@ -109,11 +109,26 @@ Theorem C19_stop_cancellation : forall c s s' out, Inv s -> step c s (EStop None
   Forall cancel_outcome out.
 Proof. exact stop_cancels. Qed.
 Print Assumptions C19_stop_cancellation.
-(* After stop() nothing is ever transmitted again: every later step emits outcomes (of sends made or cancelled after
-   the stop) at most. *)
-Theorem C19_nothing_after_stop : forall c evs s s' tr, Inv s -> stopping s = true -> run c s evs = (s', tr) ->
-  stopping s' = true /\ forall e out, In (e, out) tr -> Forall stop_out out.
-Proof. exact after_stop_run. Qed.
+(* A stopping producer refuses a send at once: the caller gets a failure (CancelledError(request_sent=False), or
+   the argument error if the arguments are bad), nothing is queued, no counter or Deferred list changes (only the
+   model's numbering of sends moves on). *)
+Theorem C19_send_refused_when_stopping : forall c s t ch cnt b s' out, stopping s = true ->
+  step c s (ESend t ch cnt b) = (s', out) ->
+  s' = set_ids s (nsend s + 1) (nload s) (ntimer s) /\
+  exists k, out = [OOutcome (nsend s) (OFail k 0)] /\
+            ((1 <= cnt /\ 0 <= b /\ k = K_CANCEL) \/ ((cnt < 1 \/ b < 0) /\ k = K_VALUE)).
+Proof. exact send_refused. Qed.
+Print Assumptions C19_send_refused_when_stopping.
+(* stop() leaves the producer stopped: stopping, timer off, no batch, empty queue, no outstanding send, counters 0. *)
+Theorem C19_stop_gives_stopped : forall c s cv s' out, Inv s -> step c s (EStop cv) = (s', out) -> stopped s'.
+Proof. exact stop_gives_stopped. Qed.
+Print Assumptions C19_stop_gives_stopped.
+(* After stop() nothing is ever transmitted again and nothing waits: for every continuation the producer stays
+   stopped, and a step emits nothing at all except the immediate refusal of a send made in that step. *)
+Theorem C19_nothing_after_stop : forall c evs s s' tr, stopped s -> run c s evs = (s', tr) ->
+  stopped s' /\ forall e out, In (e, out) tr -> out = [] \/ exists sid k, out = [OOutcome sid (OFail k 0)] /\
+                                                    match e with ESend _ _ _ _ | EBadSend _ => True | _ => False end.
+Proof. exact stopped_run. Qed.
 Print Assumptions C19_nothing_after_stop.
 
 (* ---- non-vacuity: concrete reachable states exercising the hypotheses ---- *)
@@ -138,7 +153,8 @@ Example ex_deferred : exists s tr, run ex_cfg ex_init (ex_evs ++ [EResult (VResp
        OSendProduce 1 0 [((0, 0), [(2, 0); (3, 0); (3, 1)])]]) tr.
 Proof. eexists; eexists. split; [vm_compute; reflexivity|]. vm_compute. do 4 right. left. reflexivity. Qed.
 (* cancel before dispatch, then stop with a batch in flight *)
-Example ex_cancel_stop : exists s tr, run ex_cfg ex_init (ex_evs ++ [ECancel 2; EStop None]) = (s, tr) /\
+Example ex_cancel_stop : exists s tr, run ex_cfg ex_init (ex_evs ++ [ECancel 2; EStop None; ESend 0 0 1 3]) = (s, tr) /\
+  In (ESend 0 0 1 3, [OOutcome 4 (OFail K_CANCEL 0)]) tr /\ stopped s /\
   In (ECancel 2, [OOutcome 2 (OFail K_CANCEL 0)]) tr /\
   In (EStop None, [OOutcome 0 (OFail K_TIDCANCEL 0); OOutcome 1 (OFail K_TIDCANCEL 0); OBatchDone; OOutcome 3 (OFail K_CANCEL 0)]) tr /\
   outstanding s = [] /\ wcnt s = 0.
